@@ -309,25 +309,25 @@ func c16FromBio(s *obiseq.BioSequence) c16Rec {
 // option specification (what the command line asks for)
 
 type c16Spec struct {
-	l, L, c, C, pe                  *int
-	s, D, I, A, p, r, rank, ap      []string
-	a                               [][2]string
-	idl                             *[]string
-	v, indel, fwd, paired           bool
-	i                               []int
-	pm                              string
-	pmSet                           bool
-	clear, length                   bool
-	setid                           string
-	del, keep                       []string
-	ren, tag                        [][2]string
-	cut                             *[2]int
-	bs, w                           int
-	long                            bool // spell options with their long names
-	names                           []string
-	rawToks                         []string
-	saveDisc, out                   string // grepio: --save-discarded / --out, set by the harness
-	io                              bool
+	l, L, c, C, pe             *int
+	s, D, I, A, p, r, rank, ap []string
+	a                          [][2]string
+	idl                        *[]string
+	v, indel, fwd, paired      bool
+	i                          []int
+	pm                         string
+	pmSet                      bool
+	clear, length              bool
+	setid                      string
+	del, keep                  []string
+	ren, tag                   [][2]string
+	cut                        *[2]int
+	bs, w                      int
+	long                       bool // spell options with their long names
+	names                      []string
+	rawToks                    []string
+	saveDisc, out              string // grepio: --save-discarded / --out, set by the harness
+	io                         bool
 }
 
 func c16Pair2(x string) ([2]string, bool) {
@@ -1078,11 +1078,11 @@ func (sp *c16Spec) dropDefaults() (*c16Spec, string) {
 		c.L = nil
 		names = append(names, "L")
 	}
-	if c.c != nil && *c.c == 1 {
+	if c.c != nil && *c.c == 0 {
 		c.c = nil
 		names = append(names, "c")
 	}
-	if c.l != nil && *c.l == 1 {
+	if c.l != nil && *c.l == 0 {
 		c.l = nil
 		names = append(names, "l")
 	}
@@ -2002,9 +2002,9 @@ func (c16) Gen(rng *rand.Rand, tier string, emit func(string)) {
 		"grep C=3 L=100 | 61,61636774,636f756e74=i5 ; 62,61636774,636f756e74=i2",
 		// -v without any criterion kept everything
 		"grep v | 61,61636774,- ; 62,-,6b=s78",
-		// explicit -l 1 / -c 1 are indistinguishable from the defaults
-		"grep l=1 | 61,-,- ; 62,61,-",
-		"grep c=1 | 61,6163,636f756e74=i0 ; 62,6163,-",
+		// explicit -l 1 / -c 1 were indistinguishable from the defaults (1) and ignored
+		"grep l=1 | 61,-,- ; 62,61,-", "grep l=0 | 61,-,- ; 62,61,-", "grep l=1 v | 61,-,- ; 62,61,-",
+		"grep c=1 | 61,6163,636f756e74=i0 ; 62,6163,-", "grep c=0 | 61,6163,636f756e74=i0 ; 62,6163,-",
 		// D9: several --set-tag, only one was applied; the order is the one of a Go map
 		"annot tag=61:3132 tag=62:2261626322 tag=63:73657175656e63652e4c656e2829 | 7231,61636774,-",
 		"annot tag=62:616e6e6f746174696f6e732e612b2278222b2279222b227a22 tag=61:2271222b2272222b2273222b227422 | 7231,61636774,-",
